@@ -396,6 +396,8 @@ pub fn gen_string(d: &mut Dna, max: usize) -> String {
 }
 
 const REAL_KEYS: [&str; 8] = ["startAt", "lastFrame", "players", "playedOn", "consoleNick", "characters", "names", "netplay"];
+/// keys that JSON libraries treat specially when certain features are switched on (serde_json's private tokens), and friends
+const MAGIC_KEYS: [&str; 6] = ["$serde_json::private::RawValue", "$serde_json::private::Number", "$serde_json::private::Map", "__proto__", "$ref", "$oid"];
 
 pub fn gen_meta_map(d: &mut Dna, depth_left: usize, max_entries: usize) -> Vec<(String, Meta)> {
 	let n = d.below(max_entries + 1);
@@ -405,7 +407,8 @@ pub fn gen_meta_map(d: &mut Dna, depth_left: usize, max_entries: usize) -> Vec<(
 		let mut key = match ksel {
 			0..=99 => REAL_KEYS[(ksel as usize) % REAL_KEYS.len()].to_string(),
 			100..=139 => format!("{}", ksel % 8),
-			140..=149 => String::new(),
+			140..=147 => String::new(),
+			148..=149 => MAGIC_KEYS[d.below(MAGIC_KEYS.len())].to_string(),
 			150..=154 => "k".repeat(255),
 			_ => gen_string(d, 255),
 		};
@@ -419,7 +422,8 @@ pub fn gen_meta_map(d: &mut Dna, depth_left: usize, max_entries: usize) -> Vec<(
 		}
 		let vsel = d.u8();
 		let val = match vsel {
-			0..=89 => Meta::Str(gen_string(d, 255)),
+			0..=84 => Meta::Str(gen_string(d, 255)),
+			85..=89 => Meta::Str(["[1,2]", "123", "{\"a\":1}", "null", "1e400", "-0"][d.below(6)].to_string()),
 			90..=169 => Meta::Int(match d.u8() {
 				0..=39 => 0,
 				40..=59 => 1,
@@ -492,7 +496,8 @@ pub fn gen_metadata(d: &mut Dna, cfg: &GenCfg) -> Option<Vec<(String, Meta)>> {
 					.collect(),
 			)
 		}
-		246..=249 => Some(bulky_metadata([20usize, 40, 150, 300][d.below(4)] + d.below(8), d.u8() as u64)),
+		// (one in eight of these crosses 1 MiB)
+		246..=249 => Some(bulky_metadata([20usize, 40, 150, 300, 300, 150, 40, 5200][d.below(8)] + d.below(8), d.u8() as u64)),
 		_ => {
 			// a chain nested up to the format limit
 			let depth = 1 + d.below(126);
@@ -646,6 +651,12 @@ pub fn gen_model(d: &mut Dna, cfg: &GenCfg) -> ModelGame {
 				gstart: d.below(41),
 				gend: d.below(41),
 			};
+			// the largest payload the table can declare (65 535 bytes) for Game Start / Game End
+			match d.u8() {
+				0..=5 => extra.gstart = 65535 - spec::start_size((3, 16)),
+				6..=11 => extra.gend = 65535 - spec::end_size((3, 16)),
+				_ => {}
+			}
 		}
 	}
 	let ports = gen_ports(d);
